@@ -39,7 +39,7 @@ CLAIMED = {
          "DESIGN.md §4 C06"),
  "C07": ("exploration",
          "runtime monitor: real WithGlobalTx scope trees and gRPC/gin/dubbo integrations in a client child against the fake coordinator; oracle = reference interpreter of the documented propagation semantics over the coordinator's per-xid request log plus context observations inside and after every scope",
-         "ALL scope chains up to depth 3 over six propagation modes x two outcomes, for a shared context and for a fresh context carrying the xid, plus sampled two-child trees; per logical transaction the begin and the single decision by its launcher, xid/role seen by every callback, precondition failures of Mandatory/Never, and integrity of the enclosing context after each inner scope are compared with the model. Integrations are coupled through the real metadata/http/attachment carriers with generated xid strings and every accepted key spelling.",
+         "ALL scope chains up to depth 3 over six propagation modes x two outcomes, for a shared context and for a fresh context carrying the xid, plus sampled two-child trees; per logical transaction the begin and the single decision by its launcher, xid/role seen by every callback, precondition failures of Mandatory/Never, and integrity of the enclosing context after each inner scope are compared with the model. Integrations are coupled through the real metadata/http/attachment carriers with generated xid strings and every accepted key spelling; two overlapping requests (different xids) on a gin / gRPC server whose base context is a shared seata context must each keep their own xid from handler entry to exit.",
          "Reference interpreter in harness/checks/c07.go encodes the documented semantics; child errors are not propagated by parents (independent outcomes).",
          "DESIGN.md §4 C07"),
  "C14": ("exploration",
@@ -49,7 +49,7 @@ CLAIMED = {
          "DESIGN.md §4 C14"),
  "C15": ("exploration",
          "runtime monitor + Go race detector: a scripted recording resource manager registered through the public rm API in a -race client child; the fake coordinator delivers mixed concurrent phase-two request streams; offline matching of responses by message id in the coordinator's frame log",
-         "Per request: number of responses carrying its message id, response type, xid and branch id, status equal to what the manager returned, no success status when the manager failed or panicked, routing by branch type (recorded manager calls, one per request, right arguments), and independence from unrelated held requests; four batches override the SAGA slot, AT, TCC and XA managers in turn.",
+         "Per request: number of responses carrying its message id, response type, xid and branch id, status equal to what the manager returned, no success status when the manager failed or panicked, routing by branch type (recorded manager calls, one per request, right arguments), and independence from unrelated held requests; four batches override the SAGA slot, AT, TCC and XA managers in turn; each batch ends with requests whose message ids equal those of pending client requests; a further stream alternates requests between two managers of different branch types that know the same resource id.",
          "The scripted manager replaces the real manager of its branch type in that child; requests of the other types go to the real managers with unknown resources (only addressing and count are judged for them).",
          "DESIGN.md §4 C15"),
  "C01": ("exploration",
@@ -83,23 +83,23 @@ CLAIMED = {
          "The loser of two simultaneous deliveries may fail on the marker's unique key without an answer (the coordinator retries); only the following retry must be Rollbacked. The fake database ends the transaction when COMMIT fails. Hold at COMMIT relies on the fake's row-lock wait (1.5 s) like InnoDB's.",
          "DESIGN.md §4 C10"),
  "C19": ("exploration",
-         "runtime monitor: (1) the real loadbalance.Select in a client child over a long-lived registry of monitor-owned sessions with generated open / close / release / select histories, checked against the set of registered open sessions at each selection; (2) connection cuts (orderly close, reset) injected by the fake coordinator at generated points of a workload of a fully initialised client (AT data source + TCC actions), with the coordinator-side frame log as the record of what the client announces on the new session",
-         "Five policies x 4 histories of 60-200 actions over 4 addresses with xids naming open / closed / unknown addresses or malformed: chosen session registered and open at that moment, nil only when none is open, XID policy honours ip:port. Cuts while idle / with a request in flight / between phase one and phase two, once and three times in a row, each on a client of its own: RegisterTM and RegisterRM for every earlier resource on the new session within 20 s, a new global transaction begins, the earlier branch's phase two is answered and restores the data.",
+         "runtime monitor: (1) the real loadbalance.Select in a client child over a long-lived registry of monitor-owned sessions with generated open / close / release / select histories, checked against the set of registered open sessions at each selection; (2) connection cuts (orderly close, reset) injected by the fake coordinator at generated points of a workload of a fully initialised client (AT data source + TCC actions), with the coordinator-side frame log as the record of what the client announces on the new session; (3) a running client with the XID policy and two fake coordinators, each of which puts its own address into the xids it hands out",
+         "Five policies x 4 histories of 60-200 actions over 4 addresses with xids naming open / closed / unknown addresses or malformed: chosen session registered and open at that moment, nil only when none is open, XID policy honours ip:port. Routing: every request that carries an xid (GlobalCommit / GlobalRollback, BranchRegister, BranchReport, GlobalLockQuery of TM-only, TCC, AT and locking-read transactions) arrives at the coordinator that began the transaction. Cuts while idle / with a request in flight / between phase one and phase two, once and three times in a row, each on a client of its own: RegisterTM and RegisterRM for every earlier resource on the new session within 20 s, a new global transaction begins, the earlier branch's phase two is answered and restores the data.",
          "Cases whose connection is never re-established within 20 s are inconclusive (the property presupposes re-establishment): dubbo-getty stops reconnecting after an orderly close by the peer and seata-go has no reconnect timer, see DESIGN.md observations.",
          "DESIGN.md §4 C19"),
  "C20": ("exploration",
          "Go race detector + runtime monitors: one client child built with -race (both tiers) runs rounds of concurrent global transactions of all kinds through shared database handles and TCC actions while the fake coordinator drives phase two concurrently, fresh tables appear every round and the server closes idle pooled connections; race-report files (GORACE log_path, halt_on_error=0) are parsed and deduplicated by the first seata-go frame of each accessing stack; goroutine count, pool statistics and a watchdog per transaction",
-         "24 (thorough: 48) concurrent transactions per round x 4 (30) rounds + warm-up, kinds {AT 1-3 statements, XA autocommit, TCC prepare, AT+TCC} x {commit, rollback} on private rows: no race report with a seata-go frame in an accessing stack, every transaction returns within 120 s, every phase-two request is answered within three attempts, no pooled connection in use and no goroutine growth beyond max(15, transactions/4) after 5 s of quiescence.",
+         "24 (thorough: 48) concurrent transactions per round x 4 (30) rounds + warm-up, kinds {AT 1-3 statements, XA autocommit, TCC prepare, AT+TCC} x {commit, rollback} on private rows: no race report with a seata-go frame in an accessing stack, every transaction returns within 120 s, every phase-two request is answered within three attempts, every third AT / TCC request is delivered three times and each delivery answered, the commit buffer holds 6 entries and is flushed every 20 ms, no pooled connection in use and no goroutine growth beyond max(15, transactions/4) after 5 s of quiescence.",
          "Only interleavings that happened are judged; the check is repeated over seeds for reach. Races inside the harness, the MySQL driver or getty without a seata-go frame in the accessing stacks are not attributed.",
          "DESIGN.md §4 C20"),
  "C16": ("exploration",
          "differential runtime monitor: the same generated statement program runs in one client process through the AT proxy, through the XA proxy and through the bare go-sql-driver against three fake databases with identical content; step results, statement journals, final committed contents and the coordinator's request log are compared",
-         "Programs of queries, DML (literal / bound arguments, duplicate keys, syntax errors, unknown tables), prepared statements, explicit local transactions (default, isolation level, read-only; commit or rollback), pinned connections, multi-statement texts, DDL and locking reads, optionally with the server closing the idle pooled connections in between. Outside a global transaction (AT and XA proxies): identical journal (text, arguments, order), identical results (rows, column names/types, affected, last insert id, error number and text), no coordinator traffic. Inside a committed AT global transaction: identical business statement results, identical committed data, same business statements in the same order.",
+         "Programs of queries, DML (literal / bound arguments, duplicate keys, syntax errors, unknown tables), prepared statements, explicit local transactions (default, isolation level, read-only; commit or rollback), pinned connections, multi-statement texts, DDL, locking reads, upserts, INSERT column lists in another order, unsigned 64-bit arguments; a second batch outside global transactions with server-side parameters; mixed programs that use one dedicated connection inside and then outside a global transaction; optionally with the server closing the idle pooled connections in between. Outside a global transaction (AT and XA proxies): identical journal (text, arguments, order), identical results (rows, column names/types, affected, last insert id, error number and text), no coordinator traffic. Inside a committed AT global transaction: identical business statement results, identical committed data, same business statements in the same order.",
          "DSN as in seata-go's documentation and tests (interpolateParams=true). Metadata lookups and undo_log traffic are excluded from the journal comparison. Three open findings (C16-K1..K3) are reported as KNOWN-FINDING; a program hit by one of them is not judged further. XA inside a global transaction is C17's subject.",
          "DESIGN.md §4 C16"),
  "C17": ("fault_enumeration",
          "runtime monitor with fault injection: statements run through the XA proxy inside global transactions against a fake database that implements the MySQL XA state machine; the XA commands of the database journal are grouped by branch identifier and checked against the legal sequence; identifiers, registrations, caller errors, phase-two answers and durable data are related to each other; a second client process that never saw phase one handles phase two for servers >= 8.0.29",
-         "Autocommit statements and explicit local transactions (1..3 statements), 1..2 branches per global transaction, server versions 5.7.36 / 8.0.32, commit / rollback, phase two on the holder or on another process, and a failure {error, connection lost before / after} at XA START, at the business statement, at XA END, at XA PREPARE, or a refused registration: START < statements < END < PREPARE < exactly one COMMIT or ROLLBACK per identifier; identifier determined by (xid, branch id) and reused by phase two; BranchRegister before XA START; failures before a successful PREPARE reach the caller, end in a rolled-back branch and never in COMMIT; answers match the durable data; nothing dangling.",
+         "Autocommit statements (also 2..3 of them on one dedicated connection, 8.0.32) and explicit local transactions (1..3 statements), 1..2 branches per global transaction, forced pairs (a phase one that fails at XA END / PREPARE directly followed by a failing statement on the same pooled connection), server versions 5.7.36 / 8.0.32, commit / rollback, phase two on the holder or on another process, and a failure {error, connection lost before / after} at XA START, at the business statement, at XA END, at XA PREPARE, or a refused registration: START < statements < END < PREPARE < exactly one COMMIT or ROLLBACK per identifier; identifier determined by (xid, branch id) and reused by phase two; BranchRegister before XA START; failures before a successful PREPARE reach the caller, end in a rolled-back branch and never in COMMIT; answers match the durable data; nothing dangling.",
          "The fake database follows the MySQL reference manual's XA state table; InnoDB's XA recovery is not modelled. Two branches of one global transaction use different tables. A PREPARE whose reply was lost gets no verdict.",
          "DESIGN.md §4 C17"),
  "C18": ("exploration",
